@@ -22,6 +22,7 @@ func runC16(cases []string, out *bufio.Writer, _ []string) {
 	tag := log.RegisterTag("_c16_probe")
 	h := log.GetLogger("h1")
 	h2 := log.GetLogger("h2")
+	hroot := log.GetLogger("root") // no configuration below defines logger.root: the handle stays on the built-in console logger
 	ctx := context.Background()
 	cfgs := map[byte]map[string]string{
 		'A': {"appender.sinkA.type": "Rec", "logger.h1.type": "Logger", "logger.h1.tags": "_c16_*", "logger.h1.appenderRef.ref": "sinkA",
@@ -71,7 +72,7 @@ func runC16(cases []string, out *bufio.Writer, _ []string) {
 				} else {
 					obs = append(obs, "ok")
 				}
-			case 'g', 'w', 'v':
+			case 'g', 'w', 'v', 'r':
 				n++
 				id := fmt.Sprintf("<c16-%d>", n)
 				recReset()
@@ -82,6 +83,8 @@ func runC16(cases []string, out *bufio.Writer, _ []string) {
 						log.Errorf(ctx, tag, "%s", id)
 					} else if op == 'w' {
 						fmt.Fprintf(h, "%s\n", id)
+					} else if op == 'r' {
+						fmt.Fprintf(hroot, "%s\n", id)
 					} else {
 						fmt.Fprintf(h2, "%s\n", id)
 					}
